@@ -171,7 +171,7 @@ pub fn eval_from_bytes_bitcoin(bytes: &[u8], version_id: u8) -> EvaluatedScript 
         EvaluatedScript::new(address, ScriptPattern::Pay2Taproot)
     } else if script.is_witness_program() {
         EvaluatedScript::new(address, ScriptPattern::WitnessProgram)
-    } else if script.is_multisig() {
+    } else if is_multisig(script) {
         EvaluatedScript::new(address, ScriptPattern::Pay2MultiSig)
     } else {
         EvaluatedScript::new(address, ScriptPattern::NotRecognised)
@@ -196,6 +196,51 @@ fn p2pk_to_string(script: &Script, network: Network) -> Option<String> {
         network,
     );
     Some(address.to_string())
+}
+
+/// Checks for a bare multisig script: `<m> <pubkey>.. <n> OP_CHECKMULTISIG`
+/// with n pubkeys and 1 <= m <= n <= 16.
+/// `Script::is_multisig()` counts the pushes in an u8 (overflows on scripts with more than
+/// 255 pushes) and accepts any opcode in place of <n>.
+fn is_multisig(script: &Script) -> bool {
+    let mut instructions = script.instructions();
+    let required_sigs = match instructions.next() {
+        Some(Ok(Instruction::Op(op))) => match decode_pushnum(op) {
+            Some(m) => m,
+            None => return false,
+        },
+        _ => return false,
+    };
+
+    let mut num_pubkeys: usize = 0;
+    let total_keys = loop {
+        match instructions.next() {
+            Some(Ok(Instruction::PushBytes(_))) => num_pubkeys += 1,
+            Some(Ok(Instruction::Op(op))) => match decode_pushnum(op) {
+                Some(n) => break n,
+                None => return false,
+            },
+            _ => return false,
+        }
+    };
+    if total_keys != num_pubkeys || required_sigs > total_keys {
+        return false;
+    }
+
+    match instructions.next() {
+        Some(Ok(Instruction::Op(op))) if op == opcodes::all::OP_CHECKMULTISIG => {
+            instructions.next().is_none()
+        }
+        _ => false,
+    }
+}
+
+/// Decodes OP_1 .. OP_16
+fn decode_pushnum(op: Opcode) -> Option<usize> {
+    match op.classify(opcodes::ClassifyContext::Legacy) {
+        opcodes::Class::PushNum(n) if n >= 1 => Some(n as usize),
+        _ => None,
+    }
 }
 
 /// Checks whether a script is trivially known to have no satisfying input.
